@@ -58,6 +58,7 @@ public:
     bool isRateDisallowedInSymbolic(const expression_t& e);
     /* contracts of the recursive callees (induction hypothesis) */
     void visitGuard__contract(expression_t g) { if (!g.empty() && g.data->g_d) supported_methods.symbolic = false; }
+    void visitAssignment__real(expression_t ass) { visitAssignment(ass); } /* glue: the stub's get(i) returns the handle by value */
     void visitAssignment__contract(expression_t ass) { if (!ass.empty() && ass.data->g_d) supported_methods.symbolic = false; }
     bool isRateDisallowedInSymbolic__contract(const expression_t& e) { return !e.empty() && e.data->g_e; }
 };
@@ -66,7 +67,11 @@ using namespace UTAP;
 using namespace Constants;
 
 #include "expr_walkers.inc" /* REAL uses_fp / uses_hybrid / uses_clock (self-calls -> contract) */
+#ifdef VERIF_REAL_ASSIGN
+#include "fc_funcs_real.inc" /* the same, visitAssignment's own recursion left in place (bounded chain job) */
+#else
 #include "fc_funcs.inc"     /* REAL featurechecker.cpp functions (callee walkers -> contract)    */
+#endif
 
 static type_t mk(int k, unsigned w) { type_t t = type_t::verif_any_type(); t.base = (kind_t)k; t.wrap = w; return t; }
 /* a type that may be an array (depth <= 1): if k == ARRAY its element type is (ek, ew), kept in pool slot `slot` */
@@ -122,6 +127,30 @@ extern "C" void w_c17_assign(int kind, int nsub, int root_fp, int root_hyb, unsi
     verif_nodes[0].g_a = root_fp != 0; verif_nodes[0].g_b = root_hyb != 0;
     FeatureChecker fc; FLAGS_IN(fc);
     expression_t e(0);
+    fc.visitAssignment(e);
+    FLAGS_OUT(fc);
+}
+/* an update list of n <= 4 elements in the parser's shape COMMA(COMMA(COMMA(e0, e1), e2), e3); element i has kind
+   k[i] and the ghost bits g[i] (fp / hybrid); the REAL visitAssignment runs on the whole list */
+extern "C" void w_c17_assign_chain(int n, int k0, int k1, int k2, int k3, unsigned g0, unsigned g1, unsigned g2, unsigned g3, int sym, int sto, int con, int* osym, int* osto, int* ocon)
+{
+    int k[4] = {k0, k1, k2, k3};
+    unsigned g[4] = {g0, g1, g2, g3};
+    /* elements: nodes 4..7 */
+    for (int i = 0; i < 4; i++) {
+        verif_node& e = verif_nodes[4 + i];
+        e.kind = (kind_t)k[i]; e.nsub = 0; e.type = mk(INT, 0);
+        e.g_a = g[i] & 1; e.g_b = (g[i] >> 1) & 1; e.g_c = 0; e.g_d = 0; e.g_e = 0; e.g_f = 0;
+    }
+    /* COMMA nodes: node 1 = (e0, e1), node 2 = (node1, e2), node 3 = (node2, e3) */
+    for (int j = 1; j <= 3; j++) {
+        verif_node& c = verif_nodes[j];
+        c.kind = COMMA; c.nsub = 2; c.type = mk(INT, 0);
+        c.sub[0] = j == 1 ? 4 : j - 1; c.sub[1] = 4 + j;
+        c.g_a = c.g_b = c.g_c = c.g_d = c.g_e = c.g_f = 0;
+    }
+    FeatureChecker fc; FLAGS_IN(fc);
+    expression_t e(n == 1 ? 4 : n - 1);
     fc.visitAssignment(e);
     FLAGS_OUT(fc);
 }
